@@ -205,10 +205,10 @@ class Inliner:
             return self.cache[key]
         if key in self.active or len(self.active) >= MAX_DEPTH:
             return f.raw
-        from .normalize import desugar_tables, might_apply, might_dispatch, might_unroll, normalize_formats, unroll_literal_loops
+        from .normalize import desugar_tables, matchify, might_apply, might_dispatch, might_matchify, might_unroll, normalize_formats, unroll_literal_loops
 
         cand = self._has_candidate(f.raw)
-        fmt = might_apply(f.raw) or might_dispatch(f.raw, f.module.top) or might_unroll(f.raw) or cand
+        fmt = might_apply(f.raw) or might_dispatch(f.raw, f.module.top) or might_unroll(f.raw) or might_matchify(f.raw) or cand
         if not cand and not fmt:
             out = self._roles(f, f.raw)
             self.cache[key] = out
@@ -221,6 +221,7 @@ class Inliner:
                 changed |= unroll_literal_loops(node)
                 changed |= normalize_formats(node, f.module.top)
                 changed |= desugar_tables(node, f.module.top)
+                changed |= matchify(node)
             out = node if changed else f.raw
             if changed:
                 ast.fix_missing_locations(out)
@@ -402,7 +403,7 @@ class Inliner:
             d: dict[str, list] = {}
             for ci in self.prog.all_classes():
                 for nm, mem in ci.members.items():
-                    if _is_private(nm) and mem.func is not None:
+                    if _is_private(nm) and mem.func_raw is not None:
                         d.setdefault(nm, []).append((ci, mem))
             self._unique_methods = d
         return self._unique_methods
@@ -440,14 +441,14 @@ class Inliner:
                 if len(cands) == 1:
                     owner_mem = cands[0]
                     scope = cands[0][0]
-            if owner_mem is None or owner_mem[1].func is None:
+            if owner_mem is None or owner_mem[1].func_raw is None:
                 return None
             owner, mem = owner_mem
             # not overridden anywhere below the scope class
             for sc in prog.subclasses(scope):
                 if fn.attr in sc.members and sc != owner:
                     return None
-            callee = Func(owner.module, f"{owner.name}.{fn.attr}", mem.func, owner)
+            callee = Func(owner.module, f"{owner.name}.{fn.attr}", mem.func_raw, owner)
             recv = base
         if callee is None:
             return None
